@@ -290,7 +290,7 @@ def inject(c):
         items.insert(at, A.For(vt, "lv9", A.ForList(vals, lbr, rbr), [A.Stmt("Body", A.Args([S.F1(A.Var("lv9"))], [], False), [zero])]))
         return rebuild(items), {"kind": "looptype", "slot": "loop-list", "first": at == 0}
     if fault == "include":
-        return rebuild(items), {"kind": "include", "slot": "call", "first": False, "how": r[0] % 6, "at": at}
+        return rebuild(items), {"kind": "include", "slot": "call", "first": False, "how": r[0] % 8, "at": at}
     return None
 
 
@@ -318,6 +318,8 @@ def include_fault(script, exp):
         ("misspelt keyword (beta, right before the file was rewritten)", A.Stmt("tmplsub", A.Args([], [["alpha", f("0.1")], ["beta", f("0.2")]], False), [zero, one], "[", "]")),
         ("positional arguments to a template", A.Stmt("tmplsub", A.Args([f("0.1"), f("0.2")], [], False), [zero, one], "[", "]")),
         ("arguments to a non-template", A.Stmt("plainsub", A.Args([], [["alpha", f("0.1")]], False), [zero, one, two], "[", "]")),
+        ("all keywords plus an unknown extra one", A.Stmt("tmplsub", A.Args([], [["alpha", f("0.1")], ["gamma", f("0.2")], ["sq", f("0.5")]], False), [zero, one], "[", "]")),
+        ("empty argument list for a template", A.Stmt("tmplsub", A.Args([], [], False), [zero, one], "[", "]")),
     ]
     desc, st_ = calls[how]
     items.insert(exp["at"], st_)
